@@ -206,6 +206,25 @@ def run(ctx, rep):
         ords = [cs for cs in nn.calls() if cs.name in ("fetch_add", "fetch_sub", "load", "store", "swap", "compare_exchange")]
         if ords:
             rep.ok("C20.globals", "NEXT_ID is only updated atomically", [c.name for c in ords])
+    # no read-modify-write of an atomic split into a load and a store (lost updates under concurrency): in any function,
+    # the value stored into an atomic must not derive from a load of an atomic in the same function
+    n_store = 0
+    for f in sorted(F.fns.values(), key=lambda x: x.path):
+        if not f.path.startswith(("simplicity::", "simplicity_sys::", "simpcli")):
+            continue
+        stores = [cs for cs in f.calls() if cs.name == "store" and "atomic" in (cs.callee or "") and len(cs.args) >= 2]
+        if not stores:
+            continue
+        T = Terms(f)
+        for cs in stores:
+            n_store += 1
+            val = T.operand(cs.args[1])
+            if any(c[2] == "load" and "atomic" in c[1] for c in calls_in(val)):
+                rep.violation("C20.globals", "rmw-split:" + fm.short(f.path), "%s stores into an atomic a value computed from a load of an atomic: the update is not "
+                              "atomic (two threads can read the same value; use fetch_add / compare_exchange)" % f.path, cs.where())
+            else:
+                rep.ok("C20.globals", "atomic store in %s does not depend on a load" % fm.short(f.path), None)
+    rep.count("atomic_stores", n_store)
 
     # ---------------- C globals ----------------
     try:
